@@ -463,6 +463,9 @@ func (g *chainGen) buildLevel(depth int, initial Files, signers []*TestKey, name
 				infix := shortID(certLeafKey.ID)
 				p := prods
 				variant := rng.Intn(5)
+				if rng.Chance(25) {
+					variant = 0 // a certificate holder under a made-up key id: skipped, never an error for the step
+				}
 				if certNeeded && e == extra-1 {
 					variant = 4
 					lv.Feat = append(lv.Feat, "cert-needed")
